@@ -36,22 +36,30 @@ Inductive err :=
 | ESharedNotZero.        (* corruption-shared-not-zero *)
 
 (* ================================================================ WriteBatch *)
-(* WriteBatch.buffer; the setsum field is C04's business and not modelled *)
+(* WriteBatch.buffer (a Vec<u8>: its length is a stored field) as the chunks appended so far,
+   newest first, plus the length; the setsum field is C04's business and not modelled *)
+Record wbatch := { wb_chunks : list (list N); wb_len : N }.
+Definition wb0 : wbatch := {| wb_chunks := []; wb_len := 0 |}.
+Definition wb_buffer (b : wbatch) : list N := concat (rev (wb_chunks b)).
+
 Definition check_batch_size (block_size size : N) : bool := negb (block_size <? size).
 
 (* WriteBatch::put / del (through Builder): length checks, then the packed entry is appended
    unless the batch would exceed BLOCK_SIZE *)
-Definition wb_insert (block_size : N) (buf : list N) (e : entry) : (option err) * list N :=
-  if MAX_KEY_LEN <? len (e_key e) then (Some EKeyTooLarge, buf)
-  else if match e_val e with Some v => MAX_VALUE_LEN <? len v | None => false end then (Some EValueTooLarge, buf)
+Definition wb_insert (block_size : N) (b : wbatch) (e : entry) : (option err) * wbatch :=
+  if MAX_KEY_LEN <? len (e_key e) then (Some EKeyTooLarge, b)
+  else if match e_val e with Some v => MAX_VALUE_LEN <? len v | None => false end then (Some EValueTooLarge, b)
   else
     let pa := entry_bytes e in
-    if check_batch_size block_size (len buf + len pa) then (None, buf ++ pa)
-    else (Some ETableFull, buf).
+    if check_batch_size block_size (wb_len b + len pa)
+    then (None, {| wb_chunks := pa :: wb_chunks b; wb_len := wb_len b + len pa |})
+    else (Some ETableFull, b).
 
 (* WriteBatch::merge *)
-Definition wb_merge (block_size : N) (a b : list N) : (option err) * list N :=
-  if check_batch_size block_size (len a + len b) then (None, a ++ b) else (Some ETableFull, a).
+Definition wb_merge (block_size : N) (a b : wbatch) : (option err) * wbatch :=
+  if check_batch_size block_size (wb_len a + wb_len b)
+  then (None, {| wb_chunks := wb_chunks b ++ wb_chunks a; wb_len := wb_len a + wb_len b |})
+  else (Some ETableFull, a).
 
 Section WithParams.
   Variable bits : N.                    (* BLOCK_BITS *)
@@ -154,10 +162,17 @@ Section WithParams.
     | _ => append_ APPEND_FUEL rollover st buffer
     end.
 
-  (* a batch as the caller builds it: WriteBatch::default() then put/del per entry; entries the
-     batch refuses are not in it.  Result: the buffer. *)
-  Definition batch_buffer (es : list entry) : list N :=
-    fold_left (fun buf e => snd (wb_insert block_size buf e)) es [].
+  (* a batch as the caller builds it: WriteBatch::default() then put/del per entry; an entry the
+     batch refuses is not in it.  Result: per-entry outcome and the final buffer. *)
+  Fixpoint batch_build (b : wbatch) (es : list entry) : list (option err) * wbatch :=
+    match es with
+    | [] => ([], b)
+    | e :: es' =>
+        let '(r, b1) := wb_insert block_size b e in
+        let '(rs, b2) := batch_build b1 es' in
+        (r :: rs, b2)
+    end.
+  Definition batch_buffer (es : list entry) : list N := wb_buffer (snd (batch_build wb0 es)).
 
   (* appending a sequence of buffers; the builder stays usable after an Err *)
   Fixpoint append_all (rollover : N) (st : wstate) (bufs : list (list N))
@@ -224,9 +239,11 @@ Section WithParams.
   | FrFuel
   | FrSome (h : header) (pos : N) (rest : list N) (buffer : list N).
 
-  (* fn next_frame: header, then exactly h.size bytes appended to the buffer, then the crc *)
-  Definition next_frame (pos : N) (rest : list N) (buffer : list N) : fres :=
-    match next_header (S (length rest)) pos rest with
+  (* fn next_frame: header, then exactly h.size bytes appended to the buffer, then the crc.
+     `hfuel` is the fuel of the zero-skipping loop: anything above the number of remaining bytes
+     (read_log passes the length of the file + 1, computed once). *)
+  Definition next_frame (hfuel : nat) (pos : N) (rest : list N) (buffer : list N) : fres :=
+    match next_header hfuel pos rest with
     | HNone => FrNone
     | HErr e => FrErr e
     | HFuel => FrFuel
@@ -262,11 +279,11 @@ Section WithParams.
     end.
 
   (* fn next *)
-  Definition next (st : rstate) : nres :=
+  Definition next (hfuel : nat) (st : rstate) : nres :=
     match r_pend st with
     | _ :: _ => next_from_buffer (r_pos st) (r_rest st) (r_pend st)
     | [] =>
-        match next_frame (r_pos st) (r_rest st) [] with
+        match next_frame hfuel (r_pos st) (r_rest st) [] with
         | FrNone => NEnd
         | FrErr e => NErr e
         | FrFuel => NFuel
@@ -276,7 +293,7 @@ Section WithParams.
               match r_true_up pos1 rest1 with
               | None => NErr ETrueUp
               | Some (pos2, rest2) =>
-                  match next_frame pos2 rest2 buf1 with
+                  match next_frame hfuel pos2 rest2 buf1 with
                   | FrNone => NErr ENoSecondHeader
                   | FrErr e => NErr e
                   | FrFuel => NFuel
@@ -294,20 +311,20 @@ Section WithParams.
 
   (* the consumer's loop `while let Some(kvr) = it.next()? { .. }`: everything returned up to the
      first None or Err.  Every successful next() consumes a byte of input or of the buffer. *)
-  Fixpoint read_all (fuel : nat) (st : rstate) : list entry * rend :=
+  Fixpoint read_all (hfuel fuel : nat) (st : rstate) : list entry * rend :=
     match fuel with
     | O => ([], RFuel)
     | S f =>
-        match next st with
+        match next hfuel st with
         | NEnd => ([], REnd)
         | NErr e => ([], RErr e)
         | NFuel => ([], RFuel)
-        | NEntry e st1 => let '(es, r) := read_all f st1 in (e :: es, r)
+        | NEntry e st1 => let '(es, r) := read_all hfuel f st1 in (e :: es, r)
         end
     end.
 
   Definition read_log (file : list N) : list entry * rend :=
-    read_all (S (length file)) (r0 file).
+    let fuel := S (length file) in read_all fuel fuel (r0 file).
 
   (* a whole log written from nothing: per-append results and the file *)
   Definition write_log (rollover : N) (bufs : list (list N)) : list (wres * N) * list N :=
